@@ -264,22 +264,19 @@ impl<T: Clone + Into<Vec<u8>>> FindNodeContext<T> {
             };
         }
 
-        for (peer, instant) in self.pending.values() {
-            if instant.elapsed() > self.peer_timeout {
-                tracing::trace!(
-                    target: LOG_TARGET,
-                    query = ?self.config.query,
-                    ?peer,
-                    elapsed = ?instant.elapsed(),
-                    "peer no longer counting towards parallelism factor"
-                );
-                self.pending_responses = self.pending_responses.saturating_sub(1);
-            }
-        }
+        // Only the requests that have not timed out count towards the parallelism factor. The
+        // count is recomputed on every call: decrementing a running counter here would subtract
+        // the same timed-out peer again on each call (and once more when it finally answers or
+        // fails), lifting the bound for the fresh requests as well.
+        self.pending_responses = self
+            .pending
+            .values()
+            .filter(|(_, instant)| instant.elapsed() <= self.peer_timeout)
+            .count();
 
         // At this point, we either have pending responses or candidates to query; and we need more
         // results. Ensure we do not exceed the parallelism factor.
-        if self.pending_responses == self.config.parallelism_factor {
+        if self.pending_responses >= self.config.parallelism_factor {
             return None;
         }
 
